@@ -731,6 +731,7 @@ func writeReplay(id string, o *Obligation, r SolveResult, eng *Engine, cfg *Prop
 		if test, out, ok := tryReplay(id, o, r, eng, cfg); test != "" {
 			rp["replay_test"] = test
 			rp["replay_output"] = out
+			rp["replay_dir"], rp["replay_pkg"], rp["replay_expect"] = lastReplayDir, lastReplayPkg, lastReplayExpect
 			reproduced = ok
 		}
 	}
